@@ -13,5 +13,6 @@ PROPERTY C06_BroadcastOncePerAccept
 PROPERTY C07_Atomic
 PROPERTY C08_OnlyAuthorDeletes
 PROPERTY C09_Replaceable
+PROPERTY C09_RefusedKeepsVersions
 PROPERTY C17_GcExact
 CHECK_DEADLOCK FALSE
